@@ -63,12 +63,19 @@ IsPermutation(colls, res) ==
 \* kinds are interleaved: some kind occurs on both sides of another kind (regrouping by kind then moves results)
 Interleaved(colls) == \E i, j, q \in DOMAIN colls : i < j /\ j < q /\ colls[i].kind = colls[q].kind /\ colls[i].kind # colls[j].kind
 
+\* every wrong result is the alone value of another member with which the collection shares a clashing key
+SharesClash(ci, cj) == \E p \in DOMAIN ci.keys, q \in DOMAIN cj.keys : ci.keys[p].key = cj.keys[q].key /\ ci.keys[p].val # cj.keys[q].val
+ClashExplains(colls, res) == /\ Len(res) = Len(colls)
+                             /\ \A i \in DOMAIN colls : \/ res[i] = colls[i].alone
+                                                         \/ \E j \in DOMAIN colls : SharesClash(colls[i], colls[j]) /\ res[i] = colls[j].alone
+
 \* clauses a recorded ComputeTogether violates (the first one is the verdict, the others name the cause)
 TogetherBad(colls, res, raised) ==
   IF raised THEN { "Raised" }
   ELSE IF TogetherOK(colls, res) THEN {}
   ELSE { "Together" }
        \cup (IF TupleClashes(colls) # {} THEN { "KeyClash" } ELSE {})
+       \cup (IF TupleClashes(colls) # {} /\ ClashExplains(colls, res) THEN { "ClashExplains" } ELSE {})
        \cup (IF Interleaved(colls) THEN { "Interleaved" } ELSE {})
        \cup (IF IsPermutation(colls, res) THEN { "Permuted" } ELSE {})
 
